@@ -10,6 +10,15 @@ thread_local! {
     static HITS: Cell<u32> = const { Cell::new(0) };
 }
 
+const QUARANTINE: usize = 1024;
+#[allow(clippy::declare_interior_mutable_const)]
+const QZ: std::sync::atomic::AtomicUsize = std::sync::atomic::AtomicUsize::new(0);
+static QPTR: [std::sync::atomic::AtomicUsize; QUARANTINE] = [QZ; QUARANTINE];
+static QSIZE: [std::sync::atomic::AtomicUsize; QUARANTINE] = [QZ; QUARANTINE];
+static QALIGN: [std::sync::atomic::AtomicUsize; QUARANTINE] = [QZ; QUARANTINE];
+static QNEXT: std::sync::atomic::AtomicUsize = std::sync::atomic::AtomicUsize::new(0);
+static QLOCK: std::sync::atomic::AtomicBool = std::sync::atomic::AtomicBool::new(false);
+
 pub struct CountingAlloc;
 
 #[inline]
@@ -35,8 +44,23 @@ unsafe impl GlobalAlloc for CountingAlloc {
         // poison what is given back: a reader that still holds a pointer into a freed block (a
         // channel replaced under a scanning consumer, a snapshot freed too early) then trips over
         // garbage instead of silently reading plausible stale data
-        if l.size() <= 4096 {
+        if l.size() <= 4096 && l.size() >= 16 {
             std::ptr::write_bytes(p, 0xFF, l.size());
+            // ... and keep it out of circulation for a while (otherwise the very next allocation
+            // of that size re-initialises the block and the stale reader sees a valid object)
+            if !QLOCK.swap(true, std::sync::atomic::Ordering::Acquire) {
+                let i = QNEXT.load(std::sync::atomic::Ordering::Relaxed) % QUARANTINE;
+                QNEXT.store(i + 1, std::sync::atomic::Ordering::Relaxed);
+                let old = (QPTR[i].load(std::sync::atomic::Ordering::Relaxed), QSIZE[i].load(std::sync::atomic::Ordering::Relaxed), QALIGN[i].load(std::sync::atomic::Ordering::Relaxed));
+                QPTR[i].store(p as usize, std::sync::atomic::Ordering::Relaxed);
+                QSIZE[i].store(l.size(), std::sync::atomic::Ordering::Relaxed);
+                QALIGN[i].store(l.align(), std::sync::atomic::Ordering::Relaxed);
+                QLOCK.store(false, std::sync::atomic::Ordering::Release);
+                if old.0 != 0 {
+                    System.dealloc(old.0 as *mut u8, Layout::from_size_align_unchecked(old.1, old.2));
+                }
+                return;
+            }
         }
         System.dealloc(p, l)
     }
